@@ -324,4 +324,14 @@ def R6_sync(run):
             run.check("R6", "update_tick-result@%s:l%d" % (short, t["l"] - fn.line), mp is not None, "%s drops the result of update_tick" % path, loc=fn.loc(t["l"]), detail="result branched on")
 
 
-RULES = [R1_writers, R2_one_delta, R3_tick_polarity, R4_in_range, R5_crossing, R6_sync]
+def R7_cursor(run):
+    run.title("R7", "the pool's tick cursor stays on the side of every crossed tick that its liquidity corresponds to: the swap loop's cursor rules (C10.R5 instances: next - 1 iff a_to_b "
+                    "on reaching a tick, tick of the price only when the price moved, array hand-over)")
+    from rules.common import RuleProxy
+    from rules import C10
+    C10.R5_loop_cursor(RuleProxy(run, "R7"))
+    # ... and positions and swaps agree on which array holds a tick: arrays only start on the one grid (C10.R6 instances)
+    C10.R6_array_grid(RuleProxy(run, "R7"))
+
+
+RULES = [R1_writers, R2_one_delta, R3_tick_polarity, R4_in_range, R5_crossing, R6_sync, R7_cursor]
